@@ -1,10 +1,12 @@
-// U-TYPST: analyze_assignment_steps outside contracts (external body, ASSUMED: uninterpreted effect + the table stays well formed).
-// It makes the automatic dereferences of the place explicit and counts excess `&`; its unreachable!() sites need typing
-// invariants between the recorded base type and the steps that get_type_of_reference (also outside) would have to establish.
+// U-TYPST: analyze_assignment_steps is a callee VERIFIED IN ANOTHER UNIT (U-TYPAS, contracts/u_typas.vc): external body here, with the
+// contract it is verified against there (same oracle text, spec/u_typas_spec.rs: as_pre / as_fold / as_finish).  The uninterpreted
+// as_steps / as_state of spec/u_typst_spec.rs are thereby pinned: as_steps is the oracle, as_state is the identity.
 pub open spec fn opt_deref(o: Option<&Expression>) -> Option<Expression> { match o { Some(e) => Some(*e), None => None } }
 #[verifier::external_body]
 pub fn analyze_assignment_steps(typer: &mut Typer, base_type: ValueType, previous_steps: Vec<ReferenceStep>, address_depth: u8) -> (r: (Vec<ReferenceStep>, u8))
-	ensures (r.0@, r.1) == as_steps(base_type, previous_steps@, address_depth, abs(*old(typer))),
+	requires as_pre(base_type, previous_steps@, old(typer).symbols@),
+	ensures (r.0@, r.1) == as_finish(as_fold(base_type, previous_steps@, previous_steps@.len() as int, old(typer).symbols@)->Some_0, address_depth),
+		*final(typer) == *old(typer),
+		(r.0@, r.1) == as_steps(base_type, previous_steps@, address_depth, abs(*old(typer))),
 		abs(*final(typer)) == as_state(base_type, previous_steps@, address_depth, abs(*old(typer))),
-		tab_wf(old(typer).symbols@) ==> tab_wf(final(typer).symbols@),
 { unimplemented!() }
